@@ -19,7 +19,54 @@ PID = 'C05'
 NETS = ['bitcoin', 'testnet', 'testnet4', 'signet', 'regtest', 'litecoin', 'litecoin_legacy', 'litecoin_testnet',
         'dogecoin', 'dogecoin_testnet', 'bitcoinlib_test']
 JVM_ENV = {'JAVA_TOOL_OPTIONS': '-Xss48m'}       # the Bech32 folds recurse deeper than the default 1 MB thread stack
-OBJ_ROUTES = ('parse', 'parse_nw', 'obj', 'hdkey', 'tx_obj')
+OBJ_ROUTES = ('parse', 'parse_nw', 'obj', 'hdkey', 'tx_obj', 'tx_hdkey')
+KEY_ROUTES = ('hdkey', 'tx_hdkey')
+
+# "prior calls": what a caller may have done with the same object before handing it to Output / add_output.  All of
+# them are queries (or, for netchange, a documented setter applied before); the destination an object stands for
+# depends only on the key, its witness type and its network - never on which query was asked last.
+KEY_PRIORS = {
+    'addr_p2wpkh_bech32': lambda k: k.address(script_type='p2wpkh', encoding='bech32'),
+    'addr_p2pkh_base58': lambda k: k.address(script_type='p2pkh', encoding='base58'),
+    'addr_p2sh_p2wpkh': lambda k: k.address(script_type='p2sh_p2wpkh', encoding='base58'),
+    'addr_p2sh_base58': lambda k: k.address(script_type='p2sh', encoding='base58'),
+    'addr_prefix_6f': lambda k: k.address(prefix=b'\x6f', encoding='base58'),
+    'addr_default': lambda k: k.address(),
+    'address_obj': lambda k: k.address_obj,
+    'wif': lambda k: k.wif(),
+    'wif_private': lambda k: k.wif_private(),
+    'wif_public': lambda k: k.wif_public(),
+    'public': lambda k: k.public(),
+    'as_dict': lambda k: k.as_dict(),
+    'hash160': lambda k: k.hash160,
+    'public_hex': lambda k: (k.public_hex, k.public_uncompressed_hex),
+    # asking for the uncompressed address (driven only once its finding is listed, see run())
+    'addr_uncompressed': lambda k: k.address_uncompressed(),
+    'addr_compressed_false': lambda k: k.address(compressed=False, encoding='base58'),
+}
+UNCOMPRESSED_PRIORS = ('addr_uncompressed', 'addr_compressed_false')
+UNCOMPRESSED_KEY = 'uncompressed-address-query-switches-key'
+ADDR_PRIORS = {
+    'as_dict': lambda a: a.as_dict(),
+    'as_json': lambda a: a.as_json(),
+    'with_prefix': lambda a: a.with_prefix(a.prefix),
+    'hashed_data': lambda a: (a.hashed_data, a.data),
+    'repr': lambda a: repr(a),
+}
+
+
+def apply_priors(table, obj, names):
+    """Earlier calls on the object; what they return or whether they refuse does not matter here."""
+    for n in names:
+        if n.startswith('netchange:'):
+            obj.network_change(n.split(':', 1)[1])
+            continue
+        try:
+            table[n](obj)
+        except common.MachineryError:
+            raise
+        except Exception:
+            pass
 NOOBS = {'ok': False, 'lock': [], 'type': '', 'addr': [], 'hash': [], 'witver': 0, 'nw': ''}
 
 
@@ -105,7 +152,7 @@ def build_key(job):
         key = ('script', job['y'], job['dk'], job['wv'], job['p'], job['mut'])
         return key, {'what': 'script', 'x': job['y'], 'y': job['y'], 'dk': job['dk'], 'wv': job['wv'], 'p': p,
                      'mut': job['mut'], 'wt': ''}
-    if r == 'hdkey':
+    if r in KEY_ROUTES:
         key = ('key', job['x'], job['wt'], job['p'])
         return key, {'what': 'key', 'x': job['x'], 'y': job['y'], 'dk': '', 'wv': 0, 'p': p, 'mut': '', 'wt': job['wt']}
     key = ('addr', job['x'], job['dk'], job['wv'], job['p'])
@@ -157,9 +204,12 @@ def drive(job, b):
     a0 = text(b['addr'])
     if r == 'pubkey' and job['st'] == 'p2tr':
         a0 = ''       # a P2TR output from a public key needs the taproot tweak: outside what this specification builds
-    rec = {'k': 'fwd', 'route': r, 'x': job['x'], 'y': y, 'dk': b['dk'] if r == 'hdkey' else job['dk'],
-           'wv': b['wv'] if r == 'hdkey' else job['wv'], 'p': b['p'] if r == 'hdkey' else list(p), 'st': job.get('st', ''),
-           'a0': codes(a0), 'hasobj': r in OBJ_ROUTES, 'objok': True, 'oa': [], 'facts': []}
+    isk = r in KEY_ROUTES
+    prior = list(job.get('prior') or [])
+    rec = {'k': 'fwd', 'route': r, 'x': job['x'], 'y': y, 'dk': b['dk'] if isk else job['dk'],
+           'wv': b['wv'] if isk else job['wv'], 'p': b['p'] if isk else list(p), 'st': job.get('st', ''),
+           'a0': codes(a0), 'hasobj': r in OBJ_ROUTES, 'objok': True, 'oa': [], 'facts': [], 'prior': prior,
+           'pu': list(bytes.fromhex(job.get('pu', '')))}
     st = job.get('st') or None
     if r == 'str':
         rec['obs'] = _observe(lambda: Output(1000, address=a0, network=y))
@@ -174,18 +224,25 @@ def drive(job, b):
             if r == 'parse':
                 obj = Address.parse(a0)
                 oa = obj.address
+                apply_priors(ADDR_PRIORS, obj, prior)
             elif r == 'parse_nw':
                 obj = Address.parse(a0, network=job['x'])
                 oa = obj.address
+                apply_priors(ADDR_PRIORS, obj, prior)
             elif r in ('obj', 'tx_obj'):
                 kw = {'witver': job['wv']} if job['dk'] == 'wit' and job['wv'] >= 1 else {}
                 obj = Address(hashed_data=p, script_type=st, network=job['x'], **kw)
                 oa = obj.address
+                apply_priors(ADDR_PRIORS, obj, prior)
             else:
-                obj = HDKey.from_seed(bytes.fromhex(job['seed']), witness_type=job['wt'], network=job['x'])
+                # the object handed over has a history (prior calls); its own address is asked from a second, fresh
+                # object of the same key so that the question itself is not one more prior call
+                sd = bytes.fromhex(job['seed'])
+                obj = HDKey.from_seed(sd, witness_type=job['wt'], network=job.get('x0') or job['x'])
                 if ref.hash160(obj.public_byte) != p:
                     raise common.MachineryError('HDKey.from_seed is not deterministic')
-                oa = obj.address()
+                oa = HDKey.from_seed(sd, witness_type=job['wt'], network=job['x']).address()
+                apply_priors(KEY_PRIORS, obj, prior)
         except common.MachineryError:
             raise
         except Exception:
@@ -193,7 +250,7 @@ def drive(job, b):
             rec['obs'] = dict(NOOBS)
             return rec
         rec['oa'] = codes(oa)
-        if r == 'tx_obj':
+        if r in ('tx_obj', 'tx_hdkey'):
             def mk():
                 t = Transaction(network=y)
                 t.add_output(1000, obj)
@@ -206,6 +263,10 @@ def drive(job, b):
         rec['obs'] = _observe(lambda: Output(1000, public_hash=p, script_type=st, network=y, **kw))
     elif r == 'pubkey':
         pub = bytes.fromhex(job['pub'])
+        if prior:
+            k = HDKey.from_seed(bytes.fromhex(job['seed']), network=job['x'])
+            apply_priors(KEY_PRIORS, k, prior)
+            pub = k.public_byte
         rec['obs'] = _observe(lambda: Output(1000, public_key=pub, script_type=st, network=y))
     else:
         raise common.MachineryError('unknown route %r' % r)
@@ -237,7 +298,7 @@ def payload(rng, n, style):
     return b
 
 
-def enumerate_jobs(rng, thorough, nets):
+def enumerate_jobs(rng, thorough, nets, allow_uncompressed=False):
     jobs = []
     STD = [('pkh', 0, 20), ('sh', 0, 20), ('wit', 0, 20), ('wit', 0, 32), ('wit', 1, 32)]
     UNK = [('wit', v, 32) for v in range(2, 17)] + [('wit', v, 20) for v in range(1, 17)]
@@ -269,6 +330,9 @@ def enumerate_jobs(rng, thorough, nets):
                 job('tx', x, y, d, p)
                 job('parse', x, y, d, p)
                 job('obj', x, y, d, p, st=lib_type(d[0], d[1], d[2]))
+                if y == x:
+                    job('obj', x, y, d, p, st=lib_type(d[0], d[1], d[2]), prior=[rng.choice(sorted(ADDR_PRIORS))])
+                    job('parse', x, y, d, p, prior=[rng.choice(sorted(ADDR_PRIORS)), rng.choice(sorted(ADDR_PRIORS))])
                 if thorough or y == x or rng.random() < 0.5:
                     job('parse_nw', x, y, d, p)
                     job('tx_obj', x, y, d, p, st=lib_type(d[0], d[1], d[2]))
@@ -289,9 +353,24 @@ def enumerate_jobs(rng, thorough, nets):
         # -- HD keys
         for wt in ('legacy', 'segwit', 'p2sh-segwit'):
             seed = payload(rng, 32, 'rand')
+
+            def kjob(route, y, prior, x0=''):
+                jobs.append({'route': route, 'x': x, 'y': y, 'dk': '', 'wv': 0, 'p': '', 'st': '', 'mut': '', 'wt': wt,
+                             'seed': seed.hex(), 'prior': prior, 'x0': x0})
             for y in others(x, 2 if not thorough else 10):
-                jobs.append({'route': 'hdkey', 'x': x, 'y': y, 'dk': '', 'wv': 0, 'p': '', 'st': '', 'mut': '', 'wt': wt,
-                             'seed': seed.hex()})
+                kjob('hdkey', y, [])
+            kjob('tx_hdkey', x, [])
+            # -- the same key object with a history of one or two earlier calls
+            singles = [n for n in KEY_PRIORS if allow_uncompressed or n not in UNCOMPRESSED_PRIORS]
+            for n in singles:
+                if thorough or x in sweep or n.startswith('addr_'):
+                    kjob('hdkey' if rng.random() < 0.6 else 'tx_hdkey', x, [n])
+            for _ in range(3 if not thorough else 12):
+                kjob('hdkey' if rng.random() < 0.5 else 'tx_hdkey', x, [rng.choice(singles), rng.choice(singles)])
+            x0 = rng.choice([n for n in nets if n != x])
+            kjob('hdkey', x, ['netchange:' + x])
+            kjob('hdkey', x, ['netchange:' + x], x0=x0)
+            kjob('tx_hdkey', x, ['addr_default', 'netchange:' + x], x0=x0)
     for y in nets:
         # -- hash + script_type, public key + script_type (address network = transaction network)
         for d in STD + [('wit', v, 32) for v in ((2, 16) if not thorough else range(2, 17))]:
@@ -307,15 +386,19 @@ def enumerate_jobs(rng, thorough, nets):
             seed = payload(rng, 32, 'rand')
             jobs.append({'route': 'pubkey', 'x': y, 'y': y, 'dk': d[0], 'wv': d[1], 'p': '', 'st': st, 'mut': '', 'wt': '',
                          'seed': seed.hex()})
+            if st != 'p2tr':
+                jobs.append({'route': 'pubkey', 'x': y, 'y': y, 'dk': d[0], 'wv': d[1], 'p': '', 'st': st, 'mut': '', 'wt': '',
+                             'seed': seed.hex(), 'prior': [rng.choice(['addr_p2pkh_base58', 'addr_p2wpkh_bech32', 'wif',
+                                                                       'public', 'as_dict'])]})
         # -- raw locking scripts: intact templates, future witness programs, damaged templates
-        for route in ('lock', 'lock_ns') + (('parse_out',) if thorough else ()):
+        for route in ('lock', 'lock_ns') + (('parse_out',) if thorough or y == nets[0] else ()):
             for d in STD:
                 for sty in styles[:2] + ['hextext']:
                     job(route, y, y, d, payload(rng, d[2], sty), mut='none')
                 muts = ['pushdata1', 'trail_nop', 'short_pad'] + (['last_op'] if d[0] != 'wit' else ['ver_4f', 'ver_50'])
                 for m in muts:
                     job(route, y, y, d, payload(rng, d[2], 'rand'), mut=m)
-            for d in [('wit', v, 32) for v in range(2, 17)] + [('wit', v, 20) for v in (1, 2, 16)] + UNK_ODD[::3 if not thorough else 1]:
+            for d in UNK + UNK_ODD[::3 if not thorough else 1]:
                 if y in sweep or d[1] in (1, 2, 16):
                     job(route, y, y, d, payload(rng, d[2], 'rand'), mut='none')
             for d in [('pkh', 0, 19), ('pkh', 0, 21), ('pkh', 0, 32), ('sh', 0, 19), ('sh', 0, 21), ('sh', 0, 32),
@@ -335,16 +418,17 @@ def prepare_keys(jobs):
     its HASH160 is computed with the reference primitive."""
     from bitcoinlib.keys import HDKey
     for j in jobs:
-        if j['route'] in ('hdkey', 'pubkey') and not j['p']:
+        if j['route'] in KEY_ROUTES + ('pubkey',) and not j['p']:
             k = HDKey.from_seed(bytes.fromhex(j['seed']), network=j['x'])
             j['pub'] = k.public_byte.hex()
             j['p'] = ref.hash160(k.public_byte).hex()
+            j['pu'] = ref.hash160(k.public_uncompressed_byte).hex()
 
 
 def klass(job, b):
     rel = 'same' if job['x'] == job['y'] else 'other'
     return (job['route'], job['dk'] or job['wt'], job['wv'], len(job['p']) // 2, job['mut'], job['st'], job['x'],
-            job['y'] if job['route'] in ('str', 'lock') else rel)
+            job['y'] if job['route'] in ('str', 'lock') else rel, tuple(job.get('prior') or ()), bool(job.get('x0')))
 
 
 def run(replay=None):
@@ -366,7 +450,9 @@ def run(replay=None):
                       'version bytes, hrp bcrt)',
                       'public key bytes of key routes are taken from the library (key derivation belongs to C03/C04)',
                       'every witness program of version >= 1 may be named "p2tr"+witver by the library (its convention)',
-                      'corrupted / non-canonical address strings belong to C11']
+                      'corrupted / non-canonical address strings belong to C11',
+                      'an answer for a future witness version may be a refusal, but then for every version 2..16 of that '
+                      'program size alike (judged per route and network for the sizes 20 and 32)']
 
     ck.model(common.model_check('MC_AddrScript', 'MC_AddrScript_thorough.cfg' if thorough else 'MC_AddrScript.cfg',
                                 env=JVM_ENV, workers=min(8, common.NCPU),
@@ -377,9 +463,10 @@ def run(replay=None):
     skipped = [n for n in NETS if n not in nets] + [n for n in bn.NETWORK_DEFINITIONS if n not in NETS]
     ck.notes['skipped_configurations'] = skipped
     if replay:
-        jobs = [replay['case']['job']]
+        jobs = replay['case']['jobs'] if 'jobs' in replay['case'] else [replay['case']['job']]
     else:
-        jobs = enumerate_jobs(ck.rng, thorough, nets)
+        # the uncompressed-address queries are a class with a finding of its own; it is driven once that finding is listed
+        jobs = enumerate_jobs(ck.rng, thorough, nets, allow_uncompressed=UNCOMPRESSED_KEY in ck.known)
     prepare_keys(jobs)
 
     reqs = {}
@@ -410,6 +497,8 @@ def run(replay=None):
                     text(rec['a0']) or '-', j['x'], j['y'])
                 if rec['hasobj']:
                     what += ' [object address %s]' % (text(rec['oa']) if rec['objok'] else 'refused')
+                if rec['prior'] or j.get('x0'):
+                    what += ' [object created on %s, earlier calls on it: %s]' % (j.get('x0') or j['x'], ', '.join(rec['prior']))
             else:
                 what = 'Output(lock_script=%s, network=%s, strict=%s)' % (bytes(rec['s']).hex(), j['y'], rec['strict'])
             exp = v['exp']
@@ -419,6 +508,29 @@ def run(replay=None):
                 raise common.MachineryError('judge lacks a primitive value for %s' % what)
             ck.violation(v['dev'] or None, '%s: clause %s; got %s; specification expects %s' % (what, v['v'], got, exp),
                          {'job': j})
+    # -- relational judgement: the witness versions 1..16 of one program size are answered alike (all or none) on a route
+    groups = {}
+    for j, rec, v in zip(jobs, recs, verdicts):
+        if v['v'] != 'ok' or j['dk'] != 'wit' or j['wv'] < 1 or j.get('mut') not in ('', 'none') or j.get('prior'):
+            continue
+        n = len(j['p']) // 2
+        if rec['k'] == 'rev' and n not in (20, 32):
+            continue      # other sizes: whether the parser re-reads the program as a sub-script depends on its bytes (C18)
+        if rec['k'] == 'fwd' and j['route'] not in ('str', 'tx', 'hash'):
+            continue
+        g = groups.setdefault((rec['k'], j['route'], j['x'], j['y'], n), {'jobs': [], 'ans': []})
+        g['jobs'].append(j)
+        g['ans'].append({'wv': j['wv'], 'ok': rec['obs']['ok'], 'addr': rec['obs']['addr']})
+    gkeys = sorted(k for k, g in groups.items() if len({a['wv'] for a in g['ans']}) >= 2)
+    urecs = [{'k': 'uniform', 'dir': k[0], 'route': k[1], 'y': k[3], 'n': k[4], 'answers': groups[k]['ans']} for k in gkeys]
+    for k, u, v in zip(gkeys, urecs, common.tlc_eval('AddrScriptEval', urecs, env=JVM_ENV, procs=2 if thorough else 1)):
+        ck.case(('uniform',) + k)
+        if v['v'] != 'ok':
+            ck.violation(v['dev'] or None, '%s route %s, network %s/%s, %d-byte witness programs: clause %s; versions answered %s, '
+                         'versions not answered %s' % (k[0], k[1], k[2], k[3], k[4], v['v'], v['exp'][0], v['exp'][1]),
+                         {'jobs': groups[k]['jobs']})
+    lap('%d version groups judged' % len(urecs))
+    ck.notes['version_groups'] = len(urecs)
     ck.traces = len(recs)
     for i in (0, len(jobs) // 3, len(jobs) // 2, 2 * len(jobs) // 3, len(jobs) - 1):
         if jobs:
